@@ -119,7 +119,7 @@ ARGSETS = [
     (["C", "E", "G"],), (["C", "E", "G", "B"],), (["C", "E", "G", "B", "D"],), ("C",), ("C", "E"), ("C", "3"), ("C", "E", True),
     (["I", "IV", "V7"], 0), (["I", "IV", "V7"], 1, True), (["IIm", "Vdim7", "I"], 1), (["I", "bVIIM7"], "C"), ("Am7",), (["Am7", "C"],),
     (["C", "E", "G"], "C"), (["C", "E", "G"], True), (["C", "E", "G"], "C", True), (4,), (4, 2), (3, "b"), ((6, 8),), (["C", "G"],),
-    ("I", "C"), (["A", "Bb", "E", "F#", "G"],), (["E", "G", "C"], False, True),
+    ("I", "C"), (["A", "Bb", "E", "F#", "G"],), (["E", "G", "C"], False, True), (["C#"],), ([],), (["C#"], True), (["G", "B"], True),
 ]
 # every list length the recognisers take, with every combination of their flags (shorthand, no_inversion, no_polychords): a
 # function that rotates or trims the caller's list does so only on some paths
@@ -140,6 +140,8 @@ def arg_aliasing(fname):
         if a != copy.deepcopy(args):
             changed.append(repr(args))
             continue
+        # (a result that IS the caller's own list - determine(['C#']) today - is not something the statement forbids: it
+        #  speaks of arguments modified by the call and of later calls changed by modifying a result)
         # modifying the result must not change a later identical call
         try:
             if isinstance(r, list):
@@ -168,6 +170,24 @@ def method_aliasing():
     if i != h: bad.append("Bar.__setitem__(list)")
     nc = NoteContainer(["C", "E"]); m = ["G", "B"]; n = list(m); nc + n; nc - n
     if n != m: bad.append("NoteContainer +/- list")
+    # dictionaries handed to a call
+    for kw in ({}, {"velocity": 90}, {"channel": 5}, {"velocity": 1, "channel": 2}):
+        d = {"velocity": 70, "channel": 3}; d0 = dict(d)
+        Note("C", 4, d, **kw)
+        if d != d0: bad.append("Note(name, octave, dynamics dict, %s)" % sorted(kw))
+        d = {"velocity": 70}; d0 = dict(d)
+        x = Note("E", 4); x.set_note("G", 5, d, **kw) if kw else x.set_note("G", 5, d)
+        if d != d0: bad.append("Note.set_note(name, octave, dynamics dict, %s)" % sorted(kw))
+    # sample lists handed to the frequency analysis
+    import math
+    data = [int(8000 * math.sin(2 * math.pi * 440 * i / 44100.0)) for i in range(2048)]
+    keep = list(data)
+    r1 = [str(a) for a in fft.analyze_chunks(data, 44100, 16, 512)]
+    if data != keep: bad.append("fft.analyze_chunks(list of samples)")
+    r2 = [str(a) for a in fft.analyze_chunks(list(keep), 44100, 16, 512)]
+    if r1 != r2: bad.append("fft.analyze_chunks: the same samples analysed twice give other notes")
+    d2 = list(keep); fft.find_frequencies(d2, 44100, 16); fft.find_notes(fft.find_frequencies(d2, 44100, 16), 60)
+    if d2 != keep: bad.append("fft.find_frequencies(list of samples)")
     return bad
 
 def siblings():
@@ -227,6 +247,50 @@ def midi_order():
     if a1 != a2: bad.append("a track ending bars in rests writes other bytes after another track has been written")
     if b1 != b2: bad.append("a track writes other bytes after a track with carried-over rests has been written")
     if a2 != a3: bad.append("the same music written twice gives other bytes the second time")
+    return bad
+
+def midi_comp():
+    """a composition of several tracks written to a file: every track chunk is what that track gives when written alone"""
+    import tempfile
+    def chunks(path):
+        data = open(path, "rb").read()
+        out, i = [], 14
+        while i + 8 <= len(data):
+            n = int.from_bytes(data[i + 4:i + 8], "big")
+            out.append(data[i:i + 8 + n]); i += 8 + n
+        return out
+    def mk(k):
+        t = Track()
+        for j, nm in enumerate(["C", "E", "G", "B"][k:] + ["D"] * k):
+            t.add_notes(Note(nm, 3 + k), [4, 8, 2][j % 3])
+        t.name = "track %d" % k
+        return t
+    bad = []
+    # (other histories of this harness re-execute the theory modules; the MIDI modules hold classes imported from them, so
+    #  they are re-executed too before they are used)
+    importlib.reload(midi_track); mfo = importlib.reload(midi_file_out)
+    d = tempfile.mkdtemp(prefix="verif_c15_")
+    try:
+        for n in (2, 3):
+            comp = Composition()
+            for k in range(n):
+                comp.add_track(mk(k))
+            p = os.path.join(d, "all.mid")
+            mfo.write_Composition(p, comp, 120, 0)
+            got = chunks(p)
+            if len(got) != n:
+                bad.append("%d track chunks for %d tracks" % (len(got), n)); continue
+            for k in range(n):
+                one = Composition(); one.add_track(mk(k))
+                q = os.path.join(d, "one.mid")
+                mfo.write_Composition(q, one, 120, 0)
+                alone = chunks(q)
+                if len(alone) != 1 or alone[0] != got[k]:
+                    bad.append("track %d of %d: its chunk differs from the same track written alone (%d bytes, alone %d)" %
+                               (k, n, len(got[k]), len(alone[0]) if alone else -1))
+    finally:
+        import shutil
+        shutil.rmtree(d, ignore_errors=True)
     return bad
 
 def inst_script(cls_name, ops):
@@ -314,6 +378,7 @@ IMPL = {
     "alias.methods": method_aliasing,
     "alias.siblings": siblings,
     "alias.midi_order": midi_order,
+    "alias.midi_comp": midi_comp,
     "alias.inst_real": inst_script,
     "alias.lookup": lambda table, fs: lookups(fs),
     "alias.lookup_cold": lambda fs: [lookups(fs), lookups_cold(fs)],
@@ -365,6 +430,7 @@ def cases(tier, rng):
     yield Case("alias.methods", [], "args/methods", model=False, kind=("list",))
     yield Case("alias.siblings", [], "instances/siblings", model=False, kind=("list",))
     yield Case("alias.midi_order", [], "instances/midi-order", model=False, kind=("list",))
+    yield Case("alias.midi_comp", [], "instances/midi-composition", model=False, kind=("list",))
     for cls in ["NoteContainer", "Bar", "Track", "Composition", "Suite"]:
         for _ in range(10):
             ops = [["create"]] + [rng.choice([["create"], ["append", rng.randint(0, 3), "x"]]) for _ in range(rng.randint(2, 12))]
